@@ -731,3 +731,18 @@ Proof.
   rewrite (read_blocks_flat' c2 f2 f1 sync d t2 vals Hw Hs H2 ltac:(rewrite <- E; exact H1)).
   now rewrite E.
 Qed.
+
+(* non-vacuity *)
+Example vlq_nonvacuous :
+  vlq_long vlq0 [216; 4; 9] = (vlq0, [9], VSome 300%Z) /\
+  vlq_long vlq0 [216] = (MkVlq 88 7, [], VNone) /\
+  vlq_long (MkVlq 88 7) [4; 9] = (vlq0, [9], VSome 300%Z) /\
+  read_varint [216; 4; 9] = Some (600, 2%nat) /\
+  wf_bytes [216; 4; 9].
+Proof. vm_compute. repeat split; try reflexivity; repeat constructor. Qed.
+
+Example block_nonvacuous :
+  let sync := [1;2;3;4;5;6;7;8;9;10;11;12;13;14;15;16] in
+  block_decode (block_fuel ([2; 2; 170] ++ sync ++ [77])) bdec0 ([2; 2; 170] ++ sync ++ [77])
+  = (MkBdec BFinished 1 [170] sync vlq0 0, [77], true) /\ bwf bdec0 /\ bd_state bdec0 <> BFinished.
+Proof. vm_compute. repeat split; try reflexivity; try discriminate. Qed.
